@@ -36,6 +36,7 @@ def _setup():
     encoding.range = ForkingRange
     enum_mod.math = MathStub()
     enum_mod.max = sym_max
+    enum_mod.int = sym_int_ext
     type_mod.int = sym_int_ext
     return encoding
 
@@ -113,7 +114,8 @@ def skeletons(tier):
     sig = [("f1", {"endianess": "big", "mux_count": 4, "mux_signal": "f0"})]
     out.append(("options", Schema(structs=[("In", [("f1", 0, ("u", 3)), ("h", 1, ("u", 2))]),
                                            ("S", [("f0", "id0", ("u", 8)), ("f1", "id1", ("u", 16)),
-                                                  ("f2", "id2", ("arr", ("u", 4), 1)), ("g", "id3", ("struct", "In"))])],
+                                                  ("f2", "id2", ("arr", ("u", 4), 1)), ("g", "id3", ("struct", "In")),
+                                                  ("f1_1", 8, ("u", 5)), ("f1_0", 9, ("i", 3))])],
                                   impls=[("can", "S", None, {"id": 1}, sig)])))
     if tier == "thorough":
         out.append(("wide", Schema(structs=[("S", [(f"f{i}", f"id{i}", ("u" if i % 2 else "i", f"w{i % 3}"))
@@ -195,6 +197,9 @@ def c04_case(args):
              "has_enum": bool(skel.enums), "nsym": len(sym)}
     base = concretize_skel(skel, default_asg(skel))
     text = base.text()
+    from ..prime import prime, decoy_text
+    dtext = decoy_text(base)
+    prime(dtext, ("layout", "serde"))
     cov = Coverage()
     eng = Engine(timeout_ms=30000 if tier == "quick" else 300000, max_paths=20000)
 
@@ -236,7 +241,7 @@ def c04_case(args):
                         "schema": {"structs": conc.structs, "enums": conc.enums, "top": "S"},
                         "pre_bitstart": m.eval(pre_bitstart.e, model_completion=True).as_long(),
                         "signals": [list(s) for s in (skel.impls[0][4] if skel.impls else [])],
-                        "assignment": asg}
+                        "assignment": asg, "decoy_text": dtext}
 
             if kind == "exc":
                 decide(eng, pc, z3.BoolVal(True), prop="C04", ob_id=ob + "|returns", res=res, known=known,
